@@ -1,7 +1,10 @@
 //! Property checks and the shared finishing protocol (minimised replay, fresh-process
 //! confirmation, known findings).
 pub mod c01;
+pub mod c02;
 pub mod c03;
+pub mod c05;
+pub mod c07;
 pub mod c12;
 pub mod c13;
 pub mod c18;
@@ -24,7 +27,10 @@ pub struct PropertyDef {
 pub fn registry() -> Vec<PropertyDef> {
     vec![
         PropertyDef { id: "C01", run: c01::run, replay: c01::replay, level: "exploration" },
+        PropertyDef { id: "C02", run: c02::run, replay: c02::replay, level: "exploration" },
         PropertyDef { id: "C03", run: c03::run, replay: c03::replay, level: "exploration" },
+        PropertyDef { id: "C05", run: c05::run, replay: c05::replay, level: "exploration" },
+        PropertyDef { id: "C07", run: c07::run, replay: c07::replay, level: "fault_enumeration" },
         PropertyDef { id: "C12", run: c12::run, replay: c12::replay, level: "exploration" },
         PropertyDef { id: "C18", run: c18::run, replay: c18::replay, level: "exploration" },
         PropertyDef { id: "C13", run: c13::run, replay: c13::replay, level: "fault_enumeration" },
